@@ -149,6 +149,28 @@ def skipFrom : Nat → List (Line ε β) → List (Line ε β)
 /-- `skip_cond_incl(tok)` -/
 def skipCondIncl (ls : List (Line ε β)) : List (Line ε β) := skipFrom 0 ls
 
+/-- `skip_cond_incl2` as it is written in C: a loop that calls itself for a nested #if-kind line and
+    returns behind the first #endif it sees itself.  `fuel` bounds loop iterations + recursion depth. -/
+def skipCondIncl2C : Nat → List (Line ε β) → List (Line ε β)
+  | 0, ls => ls
+  | _+1, [] => []
+  | f+1, l :: ls =>
+    match l with
+    | .opens _ => skipCondIncl2C f (skipCondIncl2C f ls)      -- tok = skip_cond_incl2(tok->next->next); continue;
+    | .endif _ => ls                                          -- return tok->next->next;
+    | _ => skipCondIncl2C f ls                                -- tok = tok->next;
+
+/-- `skip_cond_incl` as it is written in C -/
+def skipCondInclC : Nat → List (Line ε β) → List (Line ε β)
+  | 0, ls => ls
+  | _+1, [] => []
+  | f+1, l :: ls =>
+    match l with
+    | .opens _ => skipCondInclC f (skipCondIncl2C f ls)       -- tok = skip_cond_incl2(tok->next->next); continue;
+    | .part _ => l :: ls                                      -- break;
+    | .endif _ => l :: ls
+    | .plain _ => skipCondInclC f ls
+
 -- ------------------------------------------------------------------ directive arms of preprocess2
 
 /-- non-conditional lines in `preprocess2`'s loop -/
